@@ -193,6 +193,7 @@ def run_case(case, seed):
         p = len(basis)
         rk = case['rk']
         ranks = [1] + [rk] * p + [1] if case['rlist'] else rk
+        ranks_given = list(ranks) if isinstance(ranks, list) else ranks
         want = psi_oracle(x, basis)
         r.nontrivial = True
         complete = rk >= m and case['mult'] >= max(n[1:] + [1])
@@ -228,4 +229,5 @@ def run_case(case, seed):
                 else:
                     r.outcome = 'hocur-shape-only'
         r.true('hocur:data-unchanged', np.array_equal(x, x0))
+        r.true('hocur:rank-list-unchanged', ranks == ranks_given, 'the caller\'s rank list was modified: %s -> %s' % (ranks_given, ranks))
     return r
